@@ -117,7 +117,8 @@ theorem good_val {c0 : Core} {w : World} {v : Option Nat} (hle : NFle c0 w.c) (h
 
 theorem good_raise {c0 : Core} {w : World} {m : String} (hle : NFle c0 w.c) (hg : w.initBad = false) (hwf : WorldWf w) :
     Good c0 (raise w m) :=
-  { le := hle, nocrash := by simp [raise], ghost := hg, wf := hwf, val := by simp [raise] }
+  { le := by rw [raise_c]; exact hle, nocrash := by simp [raise], ghost := by rw [raise_initBad]; exact hg,
+    wf := fun g hgg => by rw [raise_c]; rw [raise_cg] at hgg; exact hwf g hgg, val := by simp [raise] }
 
 theorem good_hang {c0 : Core} {w : World} {m : String} (hle : NFle c0 w.c) (hg : w.initBad = false) (hwf : WorldWf w) :
     Good c0 (hangR w m) :=
